@@ -582,6 +582,12 @@ impl Server {
         // Critical fix: Only proceed if we actually got data
         // This prevents race conditions when multiple clients wake up simultaneously
         if let Some(popped_value) = value {
+            // The pop made on the client's behalf changes the dataset like any other pop
+            self.log_blocking_pop(wakeup.db, match wakeup.op_type {
+                super::connection::BlockingOp::BRPop => "RPOP",
+                _ => "LPOP",
+            }, &wakeup.key);
+            
             // Try to update connection state - use try_with_connection to avoid deadlock
             if let Some(result) = self.connections.with_connection(wakeup.conn_id, |conn| -> Result<()> {
                 // Only wake if still in blocked state
@@ -623,6 +629,21 @@ impl Server {
         // This is correct behavior - multiple wake-ups for same item result in only one getting data
         
         Ok(())
+    }
+    
+    /// A blocking pop that took an element (at once, or when its client was woken) is appended to
+    /// the AOF as the plain pop it amounted to. BLPOP/BRPOP themselves are not logged: replayed, a
+    /// call that had to wait would block the replay.
+    fn log_blocking_pop(&self, db: usize, pop: &str, key: &[u8]) {
+        if let Some(aof) = &self.aof_engine {
+            let parts = vec![
+                RespFrame::BulkString(Some(Arc::new(pop.as_bytes().to_vec()))),
+                RespFrame::BulkString(Some(Arc::new(key.to_vec()))),
+            ];
+            if let Err(e) = aof.append_command_in_db(db, &parts) {
+                eprintln!("Failed to append to AOF: {}", e);
+            }
+        }
     }
     
     /// Process timeouts for blocked clients
@@ -3281,6 +3302,7 @@ impl Server {
         // Try non-blocking first (fast path)
         for key in &keys {
             if let Some(value) = self.storage.lpop(db_index, key)? {
+                self.log_blocking_pop(db_index, "LPOP", key);
                 return Ok(RespFrame::Array(Some(vec![
                     RespFrame::from_bytes(key.clone()),
                     RespFrame::from_bytes(value),
@@ -3348,6 +3370,7 @@ impl Server {
         // Try non-blocking first (fast path)  
         for key in &keys {
             if let Some(value) = self.storage.rpop(db_index, key)? {
+                self.log_blocking_pop(db_index, "RPOP", key);
                 return Ok(RespFrame::Array(Some(vec![
                     RespFrame::from_bytes(key.clone()),
                     RespFrame::from_bytes(value),
